@@ -271,10 +271,15 @@ func c01LowS(c *ctx, fn *ssa.Function) {
 				if f.Kind != core.FCmp {
 					continue
 				}
-				ht := core.TermAt(f.Y, f.At)
-				if ht.Op == "Rsh" && core.IsCurveOrder(ht.Args[0]) && constIs(ht.Args[1], 1) && f.Ord&core.GT != 0 && f.Ord&core.LT == 0 {
-					diamond, sVal, side = iff, f.X, si
-					exact = f.Ord == core.GT
+				// either orientation: s.Cmp(half) > 0 or half.Cmp(s) < 0
+				sv, hv, ord := f.X, f.Y, f.Ord
+				if xt := core.TermAt(f.X, f.At); xt.Op == "Rsh" {
+					sv, hv, ord = f.Y, f.X, f.Ord.Flip()
+				}
+				ht := core.TermAt(hv, f.At)
+				if ht.Op == "Rsh" && core.IsCurveOrder(ht.Args[0]) && constIs(ht.Args[1], 1) && ord&core.GT != 0 && ord&core.LT == 0 {
+					diamond, sVal, side = iff, sv, si
+					exact = ord == core.GT
 				}
 			}
 		}
@@ -345,8 +350,12 @@ func c01LowS(c *ctx, fn *ssa.Function) {
 					if core.CallIs(call, "(*math/big.Int).Bit") && strings.HasSuffix(descr(call.Call.Args[0]), "temp.ry") {
 						sawBit = true
 					}
-					if core.CallIs(call, "(*math/big.Int).Cmp") && strings.HasSuffix(descr(call.Call.Args[0]), "temp.rx") && core.IsCurveOrder(core.TermOf(call.Call.Args[1])) {
-						sawCmp = true
+					// rx.Cmp(N) or N.Cmp(rx)
+					if core.CallIs(call, "(*math/big.Int).Cmp") {
+						a0, a1 := call.Call.Args[0], call.Call.Args[1]
+						if (strings.HasSuffix(descr(a0), "temp.rx") && core.IsCurveOrder(core.TermOf(a1))) || (strings.HasSuffix(descr(a1), "temp.rx") && core.IsCurveOrder(core.TermOf(a0))) {
+							sawCmp = true
+						}
 					}
 				}
 			}
@@ -459,6 +468,27 @@ func c01Layout(c *ctx, fn *ssa.Function) {
 }
 
 // padPostcondition: every return of helper(src, length) yields a slice of length >= `length`.
+// padLoopOK: y is the accumulator of a counted loop with `length − len(src)` iterations, each of
+// which prepends exactly one byte to it.
+func padLoopOK(fn *ssa.Function, y *ssa.Phi, isLength, isLenSrc func(*T) bool) bool {
+	for _, l := range core.Loops(fn) {
+		if l.Header != y.Block() || l.Lo != 0 || l.HiIncl {
+			continue
+		}
+		ht := core.TermOf(l.Hi)
+		if ht.Op == "bin-" && isLength(ht.Args[0]) && isLenSrc(ht.Args[1]) {
+			for _, e2 := range y.Edges {
+				if b2, x2, ok := appendOf(e2); ok {
+					if n, okN := core.LenOf(b2); okN && n == 1 && core.Strip(x2) == ssa.Value(y) {
+						return true
+					}
+				}
+			}
+		}
+	}
+	return false
+}
+
 func padPostcondition(fn *ssa.Function) (bool, string) {
 	if len(fn.Params) != 2 {
 		return false, "unexpected helper signature"
@@ -482,6 +512,10 @@ func padPostcondition(fn *ssa.Function) (bool, string) {
 				return false, "returns a buffer whose length is not the requested length"
 			}
 		case *ssa.Phi:
+			// the loop-carried value itself (early-return form: `if len >= length {return src}; for … {prepend}; return src`)
+			if padLoopOK(fn, x, isLength, isLenSrc) {
+				continue
+			}
 			// src on the edge where len(src) >= length, or the result of the prepend loop
 			for i, e := range x.Edges {
 				ev := core.Strip(e)
@@ -499,22 +533,7 @@ func padPostcondition(fn *ssa.Function) (bool, string) {
 					}
 				case *ssa.Phi:
 					// loop-carried: phi[src, append([1]byte{0}, phi...)] in a counted loop with length−len(src) iterations
-					okLoop := false
-					for _, l := range core.Loops(fn) {
-						if l.Header != y.Block() || l.Lo != 0 || l.HiIncl {
-							continue
-						}
-						ht := core.TermOf(l.Hi)
-						if ht.Op == "bin-" && isLength(ht.Args[0]) && isLenSrc(ht.Args[1]) {
-							for _, e2 := range y.Edges {
-								if b2, x2, ok := appendOf(e2); ok {
-									if n, okN := core.LenOf(b2); okN && n == 1 && core.Strip(x2) == ssa.Value(y) {
-										okLoop = true
-									}
-								}
-							}
-						}
-					}
+					okLoop := padLoopOK(fn, y, isLength, isLenSrc)
 					if !okLoop {
 						return false, "the padding loop is not `length − len(src)` single-byte prepends"
 					}
